@@ -534,8 +534,65 @@ func keySet(r *rand.Rand, nk int) []string {
 	return keys
 }
 
+// groupedKeys builds a sorted set of 65..260 keys made of groups (of 1..128 keys, often exactly 63, 64, 65):
+// the keys of a group share a prefix of 8..40 bytes and more, neighbouring groups differ early, in a byte that lies
+// inside what the members of a group share.  Group boundaries therefore fall on and around multiples of 32 and 64
+// keys (batch-wise or block-wise processing of adjacent pairs).
+func groupedKeys(r *rand.Rand, total int) []string {
+	base := bsString(r, r.Intn(4))
+	filler := bsString(r, 8+r.Intn(33))
+	k := 0
+	if r.Intn(2) == 0 {
+		k = r.Intn(len(filler)) // the distinguishing byte sits inside the filler
+	}
+	var keys []string
+	gb := r.Intn(4)
+	for len(keys) < total && gb < 250 {
+		size := []int{64, 63, 65, 32, 31, 33, 128, 1, 2, 16, 64, 64, 64}[r.Intn(13)]
+		gb += 1 + r.Intn(3)
+		pre := string(base) + string(filler[:k]) + string([]byte{byte(gb)}) + string(filler[k:])
+		tail := bsString(r, r.Intn(3))
+		for i := 0; i < size; i++ {
+			key := pre + string([]byte{byte(i >> 4), byte(i&15) << 4})
+			if i%3 == 1 {
+				key += string(tail)
+			}
+			keys = append(keys, key)
+		}
+	}
+	return keys
+}
+
 func genC16(g *Gen) {
 	r := g.R
+	for c := 0; c < g.N(10, 400); c++ {
+		keys := groupedKeys(r, 65+r.Intn(196))
+		g.Case("fdb", J{"keys": strsJ(keys)})
+		if c%2 == 0 {
+			n := len(keys)
+			var qs [][]int64
+			for k := 0; k < 10; k++ {
+				s0, e0 := 32*r.Intn(n/32+1), 32*r.Intn(n/32+1)
+				s0 += []int{0, 0, 0, 1, -1}[r.Intn(5)]
+				e0 += []int{0, 0, 0, 1, -1}[r.Intn(5)]
+				if s0 > e0 {
+					s0, e0 = e0, s0
+				}
+				if s0 < 0 {
+					s0 = 0
+				}
+				if e0 > n {
+					e0 = n
+				}
+				if e0-s0 < 2 {
+					continue
+				}
+				qs = append(qs, []int64{int64(s0), int64(e0), []int64{1, 2, 3}[r.Intn(3)]})
+			}
+			qs = append(qs, []int64{0, int64(n), 2})
+			g.Case("cntp", J{"keys": strsJ(keys), "queries": qs})
+		}
+	}
 	// keys sharing a prefix of 65,536 bytes and more (first-difference bits beyond 2^19)
 	for c := 0; c < g.N(1, 6); c++ {
 		plen := []int{65536, 65537, 131072, 70000, 65535, 65536 + 8}[c%6]
